@@ -360,6 +360,50 @@ func ruleR7(p *Prog, r *Report) {
 			}
 		})
 		r.Decide(kinds["ArraySlab"] && kinds["MapSlab"], R, "uninline-kinds", p.Pos(u.Pos()), "both array and map slabs are uninlined", "uninlineStorableIfNeeded does not uninline both ArraySlab and MapSlab")
+		// once the value id of the detached container is known on a path it is what the function reports: the callers
+		// use it to forget the child's index entry, whether or not anything had to be uninlined (wrapped references too)
+		n++
+		var lost ssa.Instruction
+		for _, ret := range returnsOf(u) {
+			if c, _ := classifyReturn(ret); c == retError || len(ret.Results) < 2 {
+				continue
+			}
+			var known []ssa.Value
+			eachInstr(u, func(in ssa.Instruction) {
+				v, ok := in.(ssa.Value)
+				if !ok || typeName(v.Type()) != "ValueID" {
+					return
+				}
+				switch x := in.(type) {
+				case *ssa.Call:
+					if in.Block().Dominates(ret.Block()) {
+						known = append(known, x)
+					}
+				case *ssa.Extract:
+					if _, isCall := x.Tuple.(*ssa.Call); isCall && in.Block().Dominates(ret.Block()) {
+						known = append(known, x)
+					}
+				}
+			})
+			if len(known) == 0 {
+				continue
+			}
+			got := canon(ret.Results[1])
+			match := false
+			for _, k := range known {
+				if canon(k) == got || k == got {
+					match = true
+				}
+			}
+			if !match {
+				lost = ret
+			}
+		}
+		if lost != nil {
+			r.Bad(R, "uninline-valueid-kept", p.InstrPos(lost), "the value id of the detached container was determined on this path but is not returned: the caller cannot delete the child's mutableElementIndex entry (a stale entry makes a later Insert fail and lets the stale handle find a slot)")
+		} else {
+			r.Ok(R, "uninline-valueid-kept", p.Pos(u.Pos()), "every success path that determined the container's value id returns it")
+		}
 	} else {
 		r.Unk(R, "anchor:uninlineStorableIfNeeded", "-", "function not found")
 	}
